@@ -386,6 +386,31 @@ def containers_and_dimensions_pass(ctx):
                 extra = [k for k, v in got.items() if k not in supplied and v != 0]
                 if bad or extra:
                     ctx.violation('roundtrip', {**case, 'blades': bad + extra}, str(supplied)[:200], str({k: got.get(k) for k in bad + extra})[:200], key=f'roundtrip:array-dtype:{dname}')
+    # (c) map() with callables that are not plain functions (classes, builtins, partials, bound methods, callable objects): the
+    # one-argument form applies them to each coefficient
+    import functools
+    class Twice:
+        def __call__(self, v, scale=2): return v * scale
+    callables = [('Fraction', Fraction, lambda v: Fraction(v)), ('complex', complex, lambda v: complex(v)), ('float', float, lambda v: float(v)),
+                 ('round', round, lambda v: round(v)), ('functools.partial(round, ndigits=1)', functools.partial(round, ndigits=1), lambda v: round(v, 1)),
+                 ('abs', abs, lambda v: abs(v)), ('callable object with an optional second parameter', Twice(), lambda v: v * 2),
+                 ('bound method', (3).__mul__, lambda v: 3 * v), ('lambda v: v + 1', (lambda v: v + 1), lambda v: v + 1),
+                 ('lambda k, v: v * k', None, None)]
+    x = alg.multivector(keys=(1, 6, 3), values=[4, -6, 9])
+    for cname, fn, ref in callables:
+        case = {'map': cname, 'keys': [1, 6, 3], 'values': [4, -6, 9]}
+        ctx.case(case, tag='map-callables')
+        if fn is None:
+            got = dict(zip(x.map(lambda k, v: v * k).keys(), x.map(lambda k, v: v * k).values())); exp = {1: 4, 6: -36, 3: 27}
+        else:
+            try:
+                y = x.map(fn)
+                got = {int(k): v for k, v in zip(y.keys(), y.values())}
+            except Exception as ex:
+                got = 'raises ' + repr(ex)[:100]
+            exp = {1: ref(4), 6: ref(-6), 3: ref(9)}
+        if got != exp:
+            ctx.violation('roundtrip', case, str(exp), str(got)[:200], key='roundtrip:map-callable')
     import itertools as it
     for d in (7, 8) if not ctx.quick else (7,):
         alg = Algebra(d)
